@@ -71,6 +71,17 @@ impl IpVote {
         }
     }
 
+    /// Verification hook: makes every vote `d` older (virtual time for the vote lifetime).
+    #[cfg(discv5_verif)]
+    pub fn verif_age(&mut self, d: Duration) {
+        for v in self.ipv4_votes.values_mut() {
+            v.1 = v.1.checked_sub(d).unwrap_or(v.1);
+        }
+        for v in self.ipv6_votes.values_mut() {
+            v.1 = v.1.checked_sub(d).unwrap_or(v.1);
+        }
+    }
+
     /// Explicit pruning of old states in the hashamp.
     fn clear_old_votes(&mut self) {
         let instant = Instant::now();
